@@ -1,4 +1,5 @@
 import RR.Proof.Au
+import RR.Proof.AuBlock
 import RR.Proof.Hand
 import RR.Proof.HdlcTable
 import RR.Proof.SyncWork
@@ -21,6 +22,13 @@ panic on arithmetic overflow (`c15_int_overflow_panics` is its witness).
 -/
 namespace RR.Props.C15
 open RR RR.Blk
+
+/-- `AuDecode::work` as a block: in no state and on no read window (any bytes, any length, any output
+space) does it panic — the header slices `head[4..16]` are in range because the data offset is
+checked against 24 first; every other outcome is a wait, an error value, or progress. -/
+theorem c15_au_block_no_panic (bitrate : Nat) (deq : Nat → Nat) (st : Au.DecSt) (v : View) :
+    (Au.decWork bitrate deq st v).2.verdict ≠ .panic :=
+  Au.dec_no_panic bitrate deq st v
 
 /-- The AU decoder: every byte string leads to samples, "need more", or an
 error value; when it gets as far as reading header fields the offset
